@@ -344,9 +344,9 @@ func NewEpoch(epochNum)
   // the candidate set itself is unchanged
   ensures [C06] forall k Bytes {store.opt(k)} :: prefix("candidate", k) || prefix("2", k) ==> store.opt(k) == old(store).opt(k)
   // legacy format: the next ring slot holds all non-offline candidates in key order
-  ensures [C06] store.has(slotkey(id(store)))
+  ensures [C06,C08] store.has(slotkey(id(store)))
         && len(deser_L_Node(store.get(slotkey(id(store))))) == filtLen(old(store), cnt(old(store), "candidate"))
-  ensures [C06] forall t Int {deser_L_Node(store.get(slotkey(id(store))))[t]} :: 0 <= t && t < filtLen(old(store), cnt(old(store), "candidate"))
+  ensures [C06,C08] forall t Int {deser_L_Node(store.get(slotkey(id(store))))[t]} :: 0 <= t && t < filtLen(old(store), cnt(old(store), "candidate"))
         ==> deser_L_Node(store.get(slotkey(id(store))))[t] == filtAt(old(store), cnt(old(store), "candidate"), t)
   // structured format: every structured candidate is published under the epoch's prefix
   ensures [C06] forall k Bytes {store.opt(pkey(epochNum) ++ k)} :: old(store).has("2" ++ k) ==> store.opt(pkey(epochNum) ++ k) == old(store).opt("2" ++ k)
